@@ -4,7 +4,7 @@ CONSTANTS
   JAllowFallsThrough = FALSE
   TBlockInverted = FALSE
   TNo172 = FALSE
-  Devs = {"ipv6-internal-destination-routed", "list-items-compared-as-typed"}
+  Devs = {"ipv6-internal-destination-routed", "list-items-compared-as-typed", "empty-allow-list-value-routes-nothing"}
   Tier = "quick"
   Impl = "java"
 SPECIFICATION Spec
